@@ -370,7 +370,18 @@ def check_local_params(ctx, f, lp):
         any(t_ in ("propensity_params={'type':'general','rate':rate_string}", "propensity_params={'rate':rate_string,'type':'general'}") for t_ in txt)
     rx = [t for t in txt if t.startswith('rxn=(')]
     ok2 = rx == ["rxn=(reactant_list,product_list,propensity_params['type'],propensity_params,delay_type,delay_reactants,delay_products,delay_params)"]
-    ctx.ob('R13.4-local-parameters', 'general-rate', ok and ok2 and any(t_ in txt for t_ in ('allreactions.append(rxn)', 'allreactions+=[rxn]', 'allreactions.extend([rxn])', 'allreactions=allreactions+[rxn]')), where,
+    # the tuple is what gets stored (read through single-definition temporaries, whatever the storing form)
+    sd_ = {n_: v_ for n_, v_ in util.single_defs(f).items() if v_ is not None and n_ != 'rxn'}
+    stored = []
+    for n_ in ast.walk(lp):
+        if isinstance(n_, ast.Call) and isinstance(n_.func, ast.Attribute) and src(n_.func.value) == 'allreactions' and n_.func.attr in ('append', 'extend') and len(n_.args) == 1:
+            stored.append(n_.args[0])
+        elif isinstance(n_, ast.AugAssign) and isinstance(n_.op, ast.Add) and src(n_.target) == 'allreactions':
+            stored.append(n_.value)
+        elif isinstance(n_, ast.Assign) and src(n_.targets[0]) == 'allreactions' and isinstance(n_.value, ast.BinOp) and src(n_.value.left) == 'allreactions':
+            stored.append(n_.value.right)
+    ok3 = len(stored) == 1 and src(util.inline(stored[0], sd_)).replace(' ', '') in ('rxn', '[rxn]')
+    ctx.ob('R13.4-local-parameters', 'general-rate', ok and ok2 and ok3, where,
            "an un-annotated reaction becomes (reactants, products, 'general', {'rate': formula string}, no delay)", str(rx))
 
 
